@@ -214,6 +214,62 @@ def scan_assumptions(text):
     return sorted(set(hits))
 
 
+# bounded native checks on the real crate (replay crate): stand-ins for ASSUMED contracts, never counted as proved
+BOUNDED = [
+    # name, properties, quick arg, thorough arg, stands in for
+    ('partition', ['C04'], 'partition:16384', 'partition:1048576',
+     'assumed contracts of PrimeFactors::partition_factors / has_factors_leq / has_factors_gt / product_above (iterator code); bound: all n below the limit plus structured prime-power products below 2^40'),
+    ('plan_scalar', ['C04', 'C05', 'C10'], 'plan_scalar:768', 'plan_scalar:12288',
+     'assumed contracts of design_butterfly_product and of the constructors not under contract, end to end through FftPlannerScalar<f64>::plan_fft (both directions, fresh planner): no panic, len, direction, scratch <= 12n+64; bound: all n below the limit plus structured lengths below 2^18'),
+    ('sqrt_limit', ['C04'], 'sqrt_limit', 'sqrt_limit', 'A-sqrt: ((m*m) as f32).sqrt() as usize >= m for every m < 2^24 on this CPU (exhaustive)'),
+    ('MixedRadix', ['C08', 'C09', 'C12'], 'MixedRadix', 'MixedRadix', 'scratch-content independence (C08 iii) and panic-freedom of the real wrapper over contract-checking stubs; bound: inner lengths <= 4, inner scratch needs in {0,1,len-1,len,len+1,2len+3,3len^2+1}'),
+    ('MixedRadixSmall', ['C08', 'C09', 'C12'], 'MixedRadixSmall', 'MixedRadixSmall', 'same, MixedRadixSmall'),
+    ('GoodThomasAlgorithm', ['C08', 'C09', 'C12'], 'GoodThomasAlgorithm', 'GoodThomasAlgorithm', 'same, GoodThomasAlgorithm (incl. the assumed reindex_input/reindex_output)'),
+    ('GoodThomasAlgorithmSmall', ['C08', 'C09', 'C12'], 'GoodThomasAlgorithmSmall', 'GoodThomasAlgorithmSmall', 'same, GoodThomasAlgorithmSmall (incl. the assumed constructor contract)'),
+    ('Radix4', ['C08', 'C09', 'C12'], 'Radix4', 'Radix4', 'Radix4::new_with_base over contract-checking stubs, k <= 2, base <= 5'),
+    ('Radix3', ['C08', 'C09', 'C12'], 'Radix3', 'Radix3', 'Radix3::new_with_base over contract-checking stubs, k <= 2, base <= 5'),
+    ('RadersAlgorithm', ['C08', 'C09', 'C12'], 'RadersAlgorithm', 'RadersAlgorithm', 'RadersAlgorithm::new over contract-checking stubs, prime lengths <= 5'),
+    ('BluesteinsAlgorithm', ['C08', 'C09', 'C12'], 'BluesteinsAlgorithm', 'BluesteinsAlgorithm', 'BluesteinsAlgorithm::new over contract-checking stubs, inner <= 5'),
+]
+
+
+def run_bounded(prop, tier):
+    items = [b for b in BOUNDED if prop in b[1]]
+    if not items:
+        return []
+    import replay_engine
+    t0 = time.time()
+    exe, err = replay_engine.build(REPO, BUILD)
+    res = []
+    if exe is None:
+        for b in items:
+            res.append({'name': 'bn:' + b[0], 'status': 'inconclusive', 'reason': 'replay build failed: ' + err[-400:], 'stands_in_for': b[4]})
+        return res
+
+    def one(b):
+        arg = b[2] if tier == 'quick' else b[3]
+        t1 = time.time()
+        try:
+            p = subprocess.run([exe, arg], capture_output=True, text=True, timeout=3000)
+        except subprocess.TimeoutExpired:
+            return {'name': 'bn:' + b[0], 'status': 'inconclusive', 'reason': 'timeout', 'arg': arg, 'stands_in_for': b[4]}
+        out = p.stdout.strip()
+        r = {'name': 'bn:' + b[0], 'arg': arg, 'wall_s': round(time.time() - t1, 2), 'stands_in_for': b[4], 'kind': 'bounded-native'}
+        if out.startswith('WITNESS'):
+            r['status'] = 'fail'
+            r['failure'] = {'obligation': 'bn:%s' % b[0], 'function': b[0], 'message': 'bounded check found a failing input', 'where': [],
+                            'rendered': out, 'witness': out, 'tags': []}
+        elif out.startswith('NOWITNESS'):
+            r['status'] = 'ok'
+        else:
+            r['status'] = 'inconclusive'
+            r['reason'] = (out + p.stderr)[-400:]
+        return r
+    with cf.ThreadPoolExecutor(max_workers=8) as ex:
+        res = list(ex.map(one, items))
+    return res
+
+
 def load_known():
     p = os.path.join(ROOT, 'known_findings.txt')
     known = []
@@ -258,6 +314,7 @@ def check(prop, tier, seed):
     except ImportError:
         pass
 
+    bounded_results = run_bounded(prop, tier)
     known = load_known()
     failures = []
     inconclusive = []
@@ -277,6 +334,11 @@ def check(prop, tier, seed):
             failures.append(f)
         if k.get('status') == 'inconclusive':
             inconclusive.append('kn:%s: %s' % (k['harness'], k.get('reason', '')[:300]))
+    for b in bounded_results:
+        if b['status'] == 'fail':
+            failures.append(b['failure'])
+        elif b['status'] == 'inconclusive':
+            inconclusive.append('%s: %s' % (b['name'], b.get('reason', '')[:300]))
     for p in probe_results:
         if p['status'] == 'fail':
             failures.append(p['failure'])
@@ -296,11 +358,14 @@ def check(prop, tier, seed):
     for f in violations:
         rp = os.path.join(REPLAY_DIR, '%s-%s.txt' % (prop, slug(f['obligation'])))
         witness = None
-        try:
-            import replay_engine
-            witness = replay_engine.search(prop, f, REPO, BUILD)
-        except ImportError:
-            pass
+        if f.get('witness'):
+            witness = {'found': True, 'text': f['witness']}
+        else:
+            try:
+                import replay_engine
+                witness = replay_engine.search(prop, f, REPO, BUILD)
+            except ImportError:
+                pass
         with open(rp, 'w') as fh:
             fh.write('property: %s\nfailed obligation: %s\nfunction: %s\nverifier message: %s\n' % (prop, f['obligation'], f.get('function'), f.get('message')))
             fh.write('where:\n' + ''.join('  %s\n' % w for w in f.get('where', [])))
@@ -351,6 +416,7 @@ def check(prop, tier, seed):
             'verus_units': [{k: r.get(k) for k in ('unit', 'mode', 'status', 'obligations', 'discharged', 'clauses', 'smt_ms', 'wall_s', 'rules', 'sha256', 'tool_errors')} for r in results],
             'kani_harnesses': [{k: v for k, v in kr.items() if k not in ('failures',)} for kr in kani_results],
             'probes': probe_results,
+            'bounded_checks_not_counted_as_proved': [{k: v for k, v in b.items() if k != 'failure'} for b in bounded_results],
             'functions_under_contract': fns,
             'solver_time_ms': {'z3_via_verus': sum(r.get('smt_ms', 0) for r in results), 'cbmc_via_kani_s': sum(k.get('wall_s', 0) for k in kani_results)},
             'failed_obligations': [f['obligation'] for f in failures],
@@ -378,6 +444,8 @@ def check(prop, tier, seed):
         print('kani %-40s %-9s %-12s %.1fs' % (k['harness'], k.get('kind', ''), k.get('status'), k.get('wall_s', 0)))
     for p in probe_results:
         print('probe %-40s %s' % (p['name'], p['status']))
+    for b in bounded_results:
+        print('bounded %-34s %-12s %s  %.1fs' % (b['name'], b['status'], b.get('arg', ''), b.get('wall_s', 0)))
     for f in failures:
         print('FAILED OBLIGATION %s: %s' % (f['obligation'], f['message']))
     for s in inconclusive:
